@@ -9,7 +9,7 @@
 use std::collections::HashMap;
 
 use explorer::{json, Report};
-use p2panda::streams::verif::{aggregator_process, Aggregator};
+use p2panda::streams::verif::{aggregator_process, aggregator_process_phase, Aggregator};
 use p2panda_core::SigningKey;
 use p2panda_sync::protocols::{Metrics, TopicLogSyncEvent};
 use p2panda_sync::FromSync;
@@ -221,6 +221,50 @@ fn explore(rep: &mut Report, combo: &[Script]) {
     }
 }
 
+/// Session ids repeat when a topic's manager starts counting again: the lifecycle of script `a`
+/// and then the lifecycle of script `b` under the *same* session id on one aggregator.  The phase
+/// an operation event is attributed to must follow the current lifetime only: "live" exactly when
+/// LiveModeStarted was seen since that lifetime's SyncStarted; and the running-session count is
+/// back to zero between and after the two lifetimes.
+fn explore_id_reuse(rep: &mut Report, a: &Script, b: &Script) {
+    let k = SigningKey::from_bytes(&[3; 32]).verifying_key();
+    let mut agg = Aggregator::new();
+    let mut seen_live;
+    rep.eval();
+    for (life, sc) in [a, b].into_iter().enumerate() {
+        seen_live = false;
+        for ev in events(sc) {
+            rep.transition();
+            let is_op = matches!(ev, Ev::OperationReceived { .. });
+            if matches!(ev, Ev::LiveModeStarted) {
+                seen_live = true;
+            }
+            let phase = aggregator_process_phase(&mut agg, FromSync { session_id: 7, remote: k, event: ev });
+            if is_op {
+                let want = if seen_live { "live" } else { "sync" };
+                rep.outcome(&("phase", life, want, phase));
+                if phase != Some(want) {
+                    rep.violation(
+                        format!("phase/operation-of-{want}-phase-attributed-to-{}", phase.unwrap_or("nothing")),
+                        format!("session id 7 used by {a:?} and then again by {b:?}: an operation received in the {want} phase of lifetime #{life} was reported as {phase:?}"),
+                        json!({"part": "session-id-reuse", "first": format!("{a:?}"), "second": format!("{b:?}")}),
+                    );
+                    return;
+                }
+            }
+        }
+        if a.with_session_started && observe(&agg).0 != 0 {
+            rep.violation(
+                "running-sessions/not-zero-after-session-ended".to_string(),
+                format!("session id 7, lifetime #{life} of [{a:?}, {b:?}] ended but the aggregator reports {} running sessions", observe(&agg).0),
+                json!({"part": "session-id-reuse", "first": format!("{a:?}"), "second": format!("{b:?}")}),
+            );
+            return;
+        }
+    }
+    rep.state(&("id-reuse", a, b));
+}
+
 pub fn run(mut rep: Report) -> i32 {
     let thorough = rep.thorough();
     rep.rule = "sessions emit the event sequences the real TopicLogSync emits (cumulative metrics; SyncFinished = sync totals, SessionFinished = session totals; endings: finished, failed in sync, failed in live; with and without live mode; byte values from a small domain), with the documented SessionStarted first and, separately, without it as the current producer emits them; every interleaving of 1, 2 (and 3 in the thorough tier) sessions is explored as a position graph; non-trivial = combination in which some session transferred sync bytes".into();
@@ -232,6 +276,7 @@ pub fn run(mut rep: Report) -> i32 {
         for a in &ss {
             for b in &ss {
                 explore(&mut rep, &[a.clone(), b.clone()]);
+                explore_id_reuse(&mut rep, a, b);
             }
         }
         if thorough {
